@@ -46,6 +46,9 @@ def gen_cases(tier, seed):
     for i in range(300 if q else 6000):
         yield "history", {"salt": rng.getrandbits(40), "max": rng.choice([64, 100, 256]), "start": ["empty", "empty", "prepopulated", "twelve_full"][i % 4],
                           "fork": i % 5 == 0}
+    for nf in (9, 10, 11, 12, 20, 21, 22, 30, 31, 100, 101, 110, 111):
+        for rep in range(2 if q else 10):
+            yield "history", {"salt": rng.getrandbits(40), "max": 64, "start": f"files:{nf}", "fork": rep % 2 == 1}
     for i in range(150 if q else 3000):
         yield "crash", {"salt": rng.getrandbits(40), "max": rng.choice([64, 100]), "variant": ["buffered", "writethrough", "torn"][i % 3],
                         "start": ["empty", "prepopulated"][i % 2]}
@@ -55,7 +58,7 @@ def gen_cases(tier, seed):
 
 def required(tier):
     return {"hist.batches": 3000, "hist.rollover.exact_fit": 200, "hist.rollover.one_byte_over": 200, "hist.rollover.new_file": 500,
-            "hist.start.twelve_full": 50, "hist.forked_batches": 100, "crash.points": 800, "crash.variant.torn": 150,
+            "hist.start.twelve_full": 50, "hist.start.n_files": 20, "hist.forked_batches": 100, "crash.points": 800, "crash.variant.torn": 150,
             "crash.variant.writethrough": 150, "crash.variant.buffered": 150, "audit.opens": 3000, "exh.histories": 1500}
 
 
@@ -150,6 +153,15 @@ def _start_dir(rng, mx, start, d):
     if start == "prepopulated":
         for _ in range(rng.randrange(1, 4)):
             m.write([rand_bytes(rng, rng.choice(size_alphabet(mx))) for _ in range(rng.randrange(1, 4))])
+    elif start.startswith("files:"):
+        nfiles = int(start.split(":")[1])
+        while len(m.files) < nfiles:
+            m.write([rand_bytes(rng, mx - 8)])
+        # leave some slack in the last file half of the time
+        if rng.random() < 0.5:
+            m.files[-1] = m.files[-1][: len(m.record(b"")) + mx // 4 - 8]
+            m.files[-1] = bytearray(m.record(bytes(m.files[-1][8:])))
+            m.stream = bytearray(b"".join(bytes(f) for f in m.files))
     elif start == "twelve_full":
         while len(m.files) < 12:
             m.write([rand_bytes(rng, mx - 8)])
@@ -255,6 +267,8 @@ def run_case(kind, params, ctx):
             model = _start_dir(rng, mx, params["start"], dd)
             if params["start"] == "twelve_full":
                 ctx.count("hist.start.twelve_full")
+            if params["start"].startswith("files:"):
+                ctx.count("hist.start.n_files")
             alpha = size_alphabet(mx)
             batches = [[rand_bytes(rng, rng.choice(alpha)) for _ in range(rng.randrange(0, 5))] for _ in range(rng.randrange(1, 7))]
             _run_history(ctx, dd, mx, batches, model, fork=params["fork"], label=f"start={params['start']}")
